@@ -1,4 +1,5 @@
 import Ivg.Lemmas.GenQ
+import Ivg.Lemmas.Gen32x
 import Ivg.Gen.Tie.GenerateErrors
 import Ivg.Gen.Tie.GeneratorFields
 import Ivg.Obligations
@@ -16,7 +17,8 @@ errors before anything is written; and CSEL and NSEL are left as they were."
 
 Model: `Ivg/Model/Generator.lean` (`setGradient`, `linearMatrix`, `circularMatrix`, `ellipticalMatrix`),
 mirroring `/repo/generate/generate.go`.  Geometry is proved for the model instantiated at EXACT
-arithmetic (`ℚ`); the structure of `SetGradient` is proved for every number type.
+arithmetic (`ℚ`) and, with explicit error bounds, at float32 (`Ivg/Lemmas/Gen32*.lean`); the structure of
+`SetGradient` is proved for every number type.
 `GenQ.app m x y` applies the viewBox-to-gradient matrix `m = [a0 a1 a2; a3 a4 a5]` to a viewBox point;
 `Gradient.at` (C15) takes the first component as offset for the linear shape and the distance of the
 image from the origin for the radial shape.
@@ -79,6 +81,140 @@ theorem elliptical_gradient_geometry (cx cy rx ry sx sy : ℚ) (h : rx * sy - sx
     app m cx cy = (0, 0) ∧ app m (cx + rx) (cy + ry) = (1, 0) ∧ app m (cx + sx) (cy + sy) = (0, 1) :=
   GenQ.elliptical_gradient_geometry cx cy rx ry sx sy h
 example : (2 : ℚ) * 3 - 1 * 0 ≠ 0 := by norm_num
+
+/-! ## geometry at float32 (the helpers as the Go code runs them)
+
+The model instantiated at the bit-exact soft floats `(F32, F64)`; `Gen32.off M p` / `Gen32.off2 M p` are the two
+gradient-space coordinates of the viewBox point `p`, evaluated EXACTLY (in `ℚ`) from the float32 entries of the
+matrix `M` the helper writes; `val` is the rational value of a float32; `u = 2^-24`.  The range hypotheses
+(`LinOK`, `CircOK`, `EllOK`) are simple sufficient conditions — finite operands in `[−2^20, 2^20]`, the relevant
+length / determinant at least `2^-20` / `2^-40` — under which no intermediate result overflows; the underflow of
+a product or quotient is accounted for in the bounds (no hypothesis excludes it). -/
+section f32
+open Num FloatMono32 FloatErr Gen32
+
+/-- Clause "linear has offset 0 at (x1,y1), 1 at (x2,y2) and is constant along perpendiculars" at float32:
+    the entries are finite; `|offset(p1)| ≤ 3u·K`; `|offset(p2) − 1| ≤ 9u + |offset(p1)| ≤ 12u·K`; a step of `s`
+    times the perpendicular `(DY, −DX)` from ANY point changes the offset by at most `9u·|s|`; hence the two
+    perpendiculars through the end points.  `K = Gen32.linK = 1 + (|DX·X1| + |DY·Y1|)/(DX² + DY²)` is the
+    condition number (`K ≤ 1 + (|X1|+|Y1|)/L` for every rational `L ≤ |p2 − p1|`, `linear_K_le`): the matrix
+    entry `c = −a·x1 − b·y1` is rounded relative to `|a·x1| + |b·y1|`, so the zero of the offset is only as
+    accurate as float32 is at the distance of `p1` from the origin measured in gradient lengths. -/
+theorem linearMatrix_f32 {x1 y1 x2 y2 : F32} (h : LinOK x1 y1 x2 y2) :
+    let M := linearMatrix x1 y1 x2 y2
+    let K := linK x1 y1 x2 y2
+    let DX := val x2 - val x1
+    let DY := val y2 - val y1
+    (Fn M.a0 ∧ Fn M.a1 ∧ Fn M.a2) ∧
+    |off M (val x1) (val y1)| ≤ 3 * u * K ∧
+    |off M (val x2) (val y2) - 1| ≤ 9 * u + |off M (val x1) (val y1)| ∧
+    |off M (val x2) (val y2) - 1| ≤ 12 * u * K ∧
+    (∀ px py s, |off M (px + s * DY) (py - s * DX) - off M px py| ≤ 9 * u * |s|) ∧
+    (∀ s, |off M (val x1 + s * DY) (val y1 - s * DX)| ≤ 3 * u * K + 9 * u * |s|) ∧
+    (∀ s, |off M (val x2 + s * DY) (val y2 - s * DX) - 1| ≤ 12 * u * K + 9 * u * |s|) :=
+  Gen32.linearMatrix_f32 h
+example : LinOK (F32.ofInt 1) (F32.ofInt 2) (F32.ofInt 4) (F32.ofInt 6) := Gen32x.linOK_example
+
+/-- … the entries themselves, and EVERY point: `a`, `b` are within `8u` (relative) `+ 2^-150` of the exact
+    `DX/D`, `DY/D`, and the offset of any viewBox point is within
+    `(8u·|A| + 2^-150)·|px − X1| + (8u·|B| + 2^-150)·|py − Y1| + |offset(p1)|` of its exact projection
+    `linExact = A·(px − X1) + B·(py − Y1)` (`Mix32.tiny = 2^-150`). -/
+theorem linear_offset_f32 {x1 y1 x2 y2 : F32} (h : LinOK x1 y1 x2 y2) :
+    let M := linearMatrix x1 y1 x2 y2
+    (|val M.a0 - linA x1 y1 x2 y2| ≤ 8 * u * |linA x1 y1 x2 y2| + Mix32.tiny ∧
+     |val M.a1 - linB x1 y1 x2 y2| ≤ 8 * u * |linB x1 y1 x2 y2| + Mix32.tiny ∧
+     val M.a3 = 0 ∧ val M.a4 = 0 ∧ val M.a5 = 0) ∧
+    ∀ px py, |off M px py - linExact x1 y1 x2 y2 px py| ≤
+      (8 * u * |linA x1 y1 x2 y2| + Mix32.tiny) * |px - val x1| +
+      (8 * u * |linB x1 y1 x2 y2| + Mix32.tiny) * |py - val y1| + |off M (val x1) (val y1)| :=
+  ⟨⟨(Gen32.lin_entries h).2.1, (Gen32.lin_entries h).2.2.1, (Gen32.lin_entries h).2.2.2.2⟩,
+   fun px py => Gen32.linear_offset_err h px py⟩
+
+/-- the condition number in terms of a length -/
+theorem linear_K_le {x1 y1 x2 y2 : F32} (h : LinOK x1 y1 x2 y2) (L : ℚ) (hL : 0 < L)
+    (hLD : L * L ≤ linD x1 y1 x2 y2) : linK x1 y1 x2 y2 ≤ 1 + (|val x1| + |val y1|) / L :=
+  Gen32.linK_le h L hL hLD
+example : (0 : ℚ) < 5 ∧ (5 : ℚ) * 5 ≤ (4 - 1) * (4 - 1) + (6 - 2) * (6 - 2) := by norm_num
+
+/-- The condition number is NOT an artefact of the proof.  An in-range horizontal gradient from
+    `x1 = 1000000.0625` to `x2 = 1000000.25` (bit patterns `0x49742401`, `0x49742404`; `y = 0`): the matrix written
+    is `[0x40AAAAAB 0 0xCAA2C2AC; 0 0 0]` and its offsets are `−0.1744` at the first point and `0.8256` at the
+    second (exactly as stated), where the requested geometry has 0 and 1.  (`linK ≈ 5.3·10^6`, `3u·K ≈ 0.95`;
+    float32 has spacing 0.5 at `c = −5333334`.) -/
+theorem linear_ill_conditioned :
+    let x1 : F32 := ⟨0x49742401⟩
+    let x2 : F32 := ⟨0x49742404⟩
+    let M := linearMatrix x1 (F32.ofInt 0) x2 (F32.ofInt 0)
+    val x1 = 16000001 / 16 ∧ val x2 = 4000001 / 4 ∧
+    off M (val x1) 0 = -5851477 / 33554432 ∧ off M (val x2) 0 = 6925739 / 8388608 :=
+  Gen32x.ill_conditioned_linear
+
+/-- Clause "circular has 0 at the centre and 1 on the circle through centre plus radius vector" at float32
+    (`1/√(rx²+ry²)` in float64, narrowed to float32): with `(gx, gy) = (off M p, off2 M p)` — the radial offset is
+    `√(gx² + gy²)` — and `K = Gen32.circK = 1 + (|CX| + |CY|)/(|RX| + |RY|)`: at the centre `|gx|, |gy| ≤ 2u·K` and
+    `gx² + gy² ≤ (2u·K)²`; at centre + radius vector `|gx² + gy² − 1| ≤ 12u·K + 4(u·K)²`, and the offset `ρ ≥ 0`,
+    `ρ² = gx² + gy²`, is at least as close to 1. -/
+theorem circularMatrix_f32 {cx cy rx ry : F32} (h : CircOK cx cy rx ry) :
+    let M := circularMatrix (β := F64) cx cy rx ry
+    let K := circK cx cy rx ry
+    (Fn M.a0 ∧ Fn M.a2 ∧ Fn M.a4 ∧ Fn M.a5 ∧ val M.a1 = 0 ∧ val M.a3 = 0) ∧
+    (|off M (val cx) (val cy)| ≤ 2 * u * K ∧ |off2 M (val cx) (val cy)| ≤ 2 * u * K ∧
+      off M (val cx) (val cy) * off M (val cx) (val cy) + off2 M (val cx) (val cy) * off2 M (val cx) (val cy) ≤
+        (2 * u * K) * (2 * u * K)) ∧
+    |off M (val cx + val rx) (val cy + val ry) * off M (val cx + val rx) (val cy + val ry) +
+      off2 M (val cx + val rx) (val cy + val ry) * off2 M (val cx + val rx) (val cy + val ry) - 1| ≤
+        12 * u * K + 4 * (u * K) * (u * K) ∧
+    (∀ ρ : ℚ, 0 ≤ ρ →
+      ρ * ρ = off M (val cx + val rx) (val cy + val ry) * off M (val cx + val rx) (val cy + val ry) +
+        off2 M (val cx + val rx) (val cy + val ry) * off2 M (val cx + val rx) (val cy + val ry) →
+      |ρ - 1| ≤ 12 * u * K + 4 * (u * K) * (u * K)) :=
+  Gen32.circularMatrix_f32 h
+example : CircOK (F32.ofInt 5) (F32.ofInt 7) (F32.ofInt 3) (F32.ofInt 4) := Gen32x.circOK_example
+
+/-- … the scale entry alone (no condition number): `ι = float32(1/√(rx²+ry²))` is finite, positive and
+    `|ι²·(RX² + RY²) − 1| ≤ 6u` — the radius of the circle of offset 1 is right to relative `3u`. -/
+theorem circular_invR_f32 {rx ry : F32} (h : RadOK rx ry) :
+    Fn (invR rx ry) ∧ 0 < val (invR rx ry) ∧ val (invR rx ry) ≤ 4194304 ∧
+    |val (invR rx ry) * val (invR rx ry) * (val rx * val rx + val ry * val ry) - 1| ≤ 6 * u :=
+  Gen32.invR_err h
+example : RadOK (F32.ofInt 3) (F32.ofInt 4) := Gen32x.circOK_example.rad
+
+/-- Clause "elliptical has 1 at both axis end points" at float32: the centre goes to within `7u·K` (each
+    coordinate) of the origin, the first axis end point to within `(E, 7u·K)` of `(1, 0)`, the second to within
+    `(7u·K, E)` of `(0, 1)`, `E = 15u·K`; so both squared distances from the origin are within `2E + 2E²` of 1.
+    `K = Gen32.ellK = ((|RX|+|SX|)·(|RY|+|SY|) + (|RY|+|SY|)·|CX| + (|RX|+|SX|)·|CY|)/|DET|`,
+    `DET = RX·SY − SX·RY`.  The range hypothesis `EllOK` bounds the conditioning of that subtraction,
+    `|RX·SY| + |SX·RY| ≤ 2^20·|DET|`: for nearly parallel axis vectors the float32 determinant cancels (it can be
+    zero, and the matrix infinite). -/
+theorem ellipticalMatrix_f32 {cx cy rx ry sx sy : F32} (h : EllOK cx cy rx ry sx sy) :
+    let M := ellipticalMatrix cx cy rx ry sx sy
+    let K := ellK cx cy rx ry sx sy
+    let E := 15 * u * K
+    (Fn M.a0 ∧ Fn M.a1 ∧ Fn M.a2 ∧ Fn M.a3 ∧ Fn M.a4 ∧ Fn M.a5) ∧
+    (|off M (val cx) (val cy)| ≤ 7 * u * K ∧ |off2 M (val cx) (val cy)| ≤ 7 * u * K) ∧
+    (|off M (val cx + val rx) (val cy + val ry) - 1| ≤ E ∧ |off2 M (val cx + val rx) (val cy + val ry)| ≤ 7 * u * K) ∧
+    (|off M (val cx + val sx) (val cy + val sy)| ≤ 7 * u * K ∧ |off2 M (val cx + val sx) (val cy + val sy) - 1| ≤ E) ∧
+    |off M (val cx + val rx) (val cy + val ry) * off M (val cx + val rx) (val cy + val ry) +
+      off2 M (val cx + val rx) (val cy + val ry) * off2 M (val cx + val rx) (val cy + val ry) - 1| ≤
+        2 * E + 2 * (E * E) ∧
+    |off2 M (val cx + val sx) (val cy + val sy) * off2 M (val cx + val sx) (val cy + val sy) +
+      off M (val cx + val sx) (val cy + val sy) * off M (val cx + val sx) (val cy + val sy) - 1| ≤
+        2 * E + 2 * (E * E) :=
+  Gen32.ellipticalMatrix_f32 h
+example : EllOK (F32.ofInt 5) (F32.ofInt 7) (F32.ofInt 2) (F32.ofInt 0) (F32.ofInt 1) (F32.ofInt 3) :=
+  Gen32x.ellOK_example
+
+/-- … the determinant and its reciprocal: `|det − DET| ≤ 3u·N + u·|DET|` (`N = |RX·SY| + |SX·RY|`), and
+    `|ι·DET − 1| ≤ 4u·κ + 4u` with `κ = N/|DET|`. -/
+theorem elliptical_det_f32 {cx cy rx ry sx sy : F32} (h : EllOK cx cy rx ry sx sy) :
+    (Fn (rx * sy - sx * ry) ∧
+      |val (rx * sy - sx * ry) - ellDET rx ry sx sy| ≤ 3 * u * ellN rx ry sx sy + u * |ellDET rx ry sx sy|) ∧
+    (Fn (ellInv rx ry sx sy) ∧
+      |val (ellInv rx ry sx sy) * ellDET rx ry sx sy - 1| ≤ 4 * u * ellKappa rx ry sx sy + 4 * u ∧
+      |val (ellInv rx ry sx sy)| * |ellDET rx ry sx sy| ≤ 2) :=
+  ⟨Gen32.det_err h, Gen32.inv_err h⟩
+
+end f32
 
 /-! ## `SetGradient` (every number type) -/
 
@@ -216,8 +352,14 @@ example : Composed.stopsValid [((0 : ℚ), RGBA.black), (1, RGBA.zero)] ∧
 /-!
 ## Not proved in this file
 
-* Rounding: the geometry theorems and `helper_rendered` are about the `ℚ` instance; no error bound for the
-  float32 instance (`SetCircularGradient` additionally rounds `1/sqrt` from float64 to float32).
+* Rounding: `helper_rendered` (the composition with the renderer) is about the `ℚ` instance.  The three
+  matrices ARE bounded at float32 (section "geometry at float32"), under the range hypotheses stated there and
+  with the offsets evaluated exactly from the float32 entries; not covered: operands outside `[−2^20, 2^20]`,
+  points closer than `2^-20` / axis determinants below `2^-40`, elliptical axes with
+  `|RX·SY| + |SX·RY| > 2^20·|DET|` (nearly parallel), non-finite operands, and the renderer's own float
+  evaluation of the offset (C15's float theorems start from the matrix in the registers).  The bounds carry
+  condition numbers (`linK`, `circK`, `ellK`) that grow with the distance of the gradient from the origin in
+  units of its size; `linear_ill_conditioned` shows an in-range input where the written matrix is off by 0.17.
   `setGradient_rendered` and the error/layout theorems hold for every number type.
 * `Color.RGBA()>>8` of the stop colours (conversion of a Go `color.Color` to 8-bit RGBA) happens before the
   model's `setGradient` and is not modelled.
@@ -231,6 +373,14 @@ end Ivg.Props.C19
   Ivg.Props.C19.circular_gradient_geometry,
   Ivg.Props.C19.circular_shape_geometry,
   Ivg.Props.C19.elliptical_gradient_geometry,
+  Ivg.Props.C19.linearMatrix_f32,
+  Ivg.Props.C19.linear_offset_f32,
+  Ivg.Props.C19.linear_K_le,
+  Ivg.Props.C19.linear_ill_conditioned,
+  Ivg.Props.C19.circularMatrix_f32,
+  Ivg.Props.C19.circular_invR_f32,
+  Ivg.Props.C19.ellipticalMatrix_f32,
+  Ivg.Props.C19.elliptical_det_f32,
   Ivg.Props.C19.too_many_stops,
   Ivg.Props.C19.csel_in_stop_range,
   Ivg.Props.C19.csel_clash_iff,
